@@ -24,7 +24,7 @@ import string
 
 from ..core import AnalysisError, call_name, canon, norm, walk_no_nested
 from ..dataflow import ReachingDefs
-from ..strdom import MAXREP, NONE, ClassRef, Ctor, DictV, EnumMember, Ev, Frag, Grammar, ListV, Obj, Str, Sym, TupV, _Raise, same, show
+from ..strdom import MAXREP, NONE, Undecided, ClassRef, Ctor, DictV, EnumMember, Ev, Frag, Grammar, ListV, Obj, Str, Sym, TupV, _Raise, same, show
 
 SC = "commonroad/scenario/scenario.py"
 SO = "commonroad/common/solution.py"
@@ -92,14 +92,15 @@ def map_name_alphabet(repo, sid):
     return frozenset(kept[0].text())
 
 
-def sid_cases(letters, mapcs):
-    """valid ids by shape: (label, fields)"""
+def sid_cases(letters, mapcs, collide=()):
+    """valid ids by shape: (label, fields).  `collide`: concrete country codes chosen adversarially — codes that begin
+    like a literal of the grammar (the cooperative prefix), so that a parser deciding on a prefix is exposed"""
     out = []
-    for coop in (False, True):
-        for shape in ("map", "configuration", "one prediction", "two predictions", "three predictions"):
+    for coop, shape, country in [(c_, s_, None) for c_ in (False, True) for s_ in ("map", "configuration", "one prediction", "two predictions", "three predictions")] + [(c_, s_, lit) for lit in collide for c_ in (False, True) for s_ in ("map", "one prediction")]:
+        if True:
             f = {
                 "cooperative": coop,
-                "country_id": S(Sym("country_id", lang=[(AZ, 3, 3)])),
+                "country_id": S(Sym("country_id", lang=[(AZ, 3, 3)])) if country is None else Str.lit(country),
                 "map_name": S(Sym("map_name", lang=[(mapcs, 1, MAXREP)])),
                 "map_id": posint("map_id"),
                 "configuration_id": NONE,
@@ -114,7 +115,7 @@ def sid_cases(letters, mapcs):
                 n = {"one": 1, "two": 2, "three": 3}[shape.split()[0]]
                 ids = [posint("prediction_id[%d]" % i) for i in range(n)]
                 f["prediction_id"] = ids[0] if n == 1 else ListV(ids)
-            out.append(("%s%s" % ("cooperative, " if coop else "", shape), f))
+            out.append(("%s%s%s" % ("cooperative, " if coop else "", shape, "" if country is None else ", country %s" % country), f))
     return out
 
 
@@ -237,6 +238,9 @@ def solution_roundtrip_rules(repo, res, RULE="SOL-ID", gram=None):
     rot = lambda xs, k: xs[k % len(xs)]
     suites.append(("cooperative solution with two vehicles", [[(rot(models, k), rot(types, k + 1), rot(costs, k + 2)), (rot(models, k + 1), rot(types, k + 2), rot(costs, k + 3))] for k in range(max(len(models), len(types)))]))
     suites.append(("cooperative solution with three vehicles", [[(rot(models, k), rot(types, k), rot(costs, k)), (rot(models, k + 1), rot(types, k + 1), rot(costs, k + 1)), (rot(models, k + 2), rot(types, k + 2), rot(costs, k + 2))] for k in range(max(len(models), len(types)))]))
+    suites.append(("cooperative solution whose vehicles share one cost function", [[(rot(models, k), rot(types, k), costs[0]), (rot(models, k + 1), rot(types, k + 1), costs[0])] for k in range(2)] + [[(models[0], types[0], costs[1]), (models[1], types[1], costs[1]), (models[2 % len(models)], types[2 % len(types)], costs[1])]]))
+    suites.append(("cooperative solution whose vehicles share model and type", [[(models[0], types[0], rot(costs, k)), (models[0], types[0], rot(costs, k + 1))] for k in range(2)]))
+    suites.append(("cooperative solution of identical vehicles with one cost function", [[(models[1], types[1], costs[2 % len(costs)]), (models[1], types[1], costs[2 % len(costs)])]]))
     n_eval = 0
     for title, cases in suites:
         bad_all = []
@@ -286,11 +290,23 @@ def run(repo, res, tier):
     if not set(GROUP_TO_FIELD.values()) | {"scenario_version"} <= set(params):
         raise AnalysisError("ScenarioID.__init__ parameters changed: %s" % params)
     printed = {}
-    for label, f in sid_cases(letters, mapcs):
+    # literals of the grammar that precede the country code: a country beginning like one of them is the adversarial case
+    pre = [chr(av) for op, av in list(gram.tree)[:1] if False]
+    lead = gram.pattern
+    collide = []
+    import re as _re
+
+    mlead = _re.match(r"\(\?P<cooperative>([A-Za-z])", lead)
+    if mlead:
+        collide = [mlead.group(1).upper() + "HN" if mlead.group(1).upper() == "C" else mlead.group(1).upper() + "AA"]
+    for label, f in sid_cases(letters, mapcs, collide):
         q = "ScenarioID.__str__"
         ev = Ev(repo)
         try:
             t = ev.to_str(Obj(sid, dict(f)))
+        except Undecided as u:
+            res.refuse("ScenarioID.__str__ [%s]: %s" % (label, u))
+            continue
         except _Raise as r:
             res.check("SID-GRAMMAR", "%s: printing" % label, False, mod, pr, "ScenarioID.__str__ [%s] raises %s" % (label, r.what), "printing a valid id raises", qualname=q)
             continue
@@ -326,6 +342,9 @@ def run(repo, res, tier):
         try:
             target = ev.getattr(ClassRef(sid), "from_benchmark_id", fb, mod)
             r = ev.call_fn(target, [t, f["scenario_version"]], {}, fb)
+        except Undecided as u:
+            res.refuse("ScenarioID.from_benchmark_id [%s]: %s" % (label, u))
+            continue
         except _Raise as x:
             res.check("SID-PARSE", "%s: parsing %s" % (label, t.text()), False, mod, fb, "from_benchmark_id [%s] raises %s" % (label, x.what), "a valid printed id is rejected by the parser", qualname=q)
             continue
@@ -345,4 +364,4 @@ def run(repo, res, tier):
         res.check("SID-PARSE", "whole string must match (fullmatch)", match_ops == {"pattern-fullmatch"}, mod, fb, "from_benchmark_id matching with %s" % sorted(match_ops), "ids with trailing garbage are accepted", qualname=q)
 
     n_eval = solution_roundtrip_rules(repo, res, "SOL-ID", gram)
-    return {"shape_cases": [c[0] for c in sid_cases(letters, mapcs)], "behaviour_letters": sorted(letters), "map_name_alphabet": "".join(sorted(mapcs)), "solution_roundtrips": n_eval, "assumed": "country ids are three upper-case letters (ISO-3166 alpha-3 / ZAM), numbers are positive integers (property statement)"}
+    return {"shape_cases": [c[0] for c in sid_cases(letters, mapcs, collide)], "behaviour_letters": sorted(letters), "map_name_alphabet": "".join(sorted(mapcs)), "solution_roundtrips": n_eval, "assumed": "country ids are three upper-case letters (ISO-3166 alpha-3 / ZAM), numbers are positive integers (property statement)"}
